@@ -184,6 +184,8 @@ func init() {
 			rd = vseeker{vr}
 		case "bufio":
 			rd = bufio.NewReader(vr)
+		case "bufio64":
+			rd = bufio.NewReaderSize(vr, 64)
 		default:
 			rd = vr
 		}
@@ -241,7 +243,7 @@ func init() {
 		packetAPI := c.str("api") == "packet"
 		view := c.str("view")
 		pos := func() string {
-			if kind == "bufio" {
+			if kind == "bufio" || kind == "bufio64" {
 				return "-"
 			}
 			return fmt.Sprintf("%d", vr.pos)
